@@ -56,6 +56,7 @@ def cases(tier: str, seed: int) -> list[dict]:
             out.append({"sc": "unary", "shape": sh})
             out.append({"sc": "numpy", "shape": sh})
             out.append({"sc": "trees", "shape": sh, "n": 25 if tier == "quick" else 60})
+            out.append({"sc": "extents", "shape": sh})
         out.append({"sc": "broadcast"})
         out.append({"sc": "fieldobj", "et": ["TRI3", "QUAD4", "TRI6", "TETRA4"][r % 4]})
     for i, c in enumerate(out):
@@ -114,7 +115,7 @@ KINDS = [("field", "field"), ("field", "const"), ("const", "field")]
 def run_case(case: dict, ctx: Ctx) -> None:
     rng = np.random.default_rng([case["seed"], NUM, case["index"]])
     {"binary": run_binary, "products": run_products, "unary": run_unary, "numpy": run_numpy, "trees": run_trees, "broadcast": run_broadcast,
-     "fieldobj": run_fieldobj}[case["sc"]](case, ctx, rng)
+     "fieldobj": run_fieldobj, "extents": run_extents}[case["sc"]](case, ctx, rng)
 
 
 def _cls(case):
@@ -303,6 +304,113 @@ def run_numpy(case, ctx, rng):
     if ok:
         judge(ctx, f"C12/integrate/{cls}", got, a.sum(1), False)
     ctx.describe(f"numpy/{case['shape']}", True, shape=SHAPES[case["shape"]])
+
+
+# ------------------------------------------------------------------------------------------
+def run_extents(case, ctx, rng):
+    """Fields whose element or integration-point axis has size 1 (per-element fields (Ne, 1, ...), shape-function data
+    (1, nPg, ...)) combined with each other and with full fields: the result is the pointwise operation on the broadcast
+    (Ne, nPg) grid and is a field; then ufunc keyword forms (out=, where=) and in-place operators between two fields of
+    the same shape."""
+    Ne, nPg, d = SHAPES[case["shape"]]
+    cls = _cls(case)
+    ext = {"full": (Ne, nPg), "per-element": (Ne, 1), "per-point": (1, nPg), "single": (1, 1)}
+
+    def mk(kind, rank, spd=False):
+        a = rng.normal(size=ext[kind] + (d,) * rank)
+        if spd:
+            a = np.abs(a) + 1.0
+        return FeArray.asfearray(a.copy()), np.broadcast_to(a, (Ne, nPg) + (d,) * rank).copy()
+
+    n = 0
+    pairs = [("per-element", "per-point"), ("per-point", "per-element"), ("per-element", "full"), ("full", "per-point"), ("single", "per-element"),
+             ("per-point", "single"), ("per-element", "per-element"), ("per-point", "per-point")]
+    for ka, kb in pairs:
+        tag = f"{ka}*{kb}/{cls}"
+        rshape = np.broadcast_shapes(ext[ka], ext[kb])
+
+        def want_of(fn, *refs):
+            w = loop(fn, *refs)
+            return w[: rshape[0], : rshape[1]]          # operands constant along a size-1 axis: the result keeps that axis at size 1
+
+        A2, a2 = mk(ka, 2)
+        B2, b2 = mk(kb, 2)
+        B1, b1 = mk(kb, 1)
+        A0, a0 = mk(ka, 0)
+        B0, b0 = mk(kb, 0, spd=True)
+        ops = [
+            ("matmul22", lambda: A2 @ B2, lambda: want_of(lambda x, y: x @ y, a2, b2)),
+            ("matmul21", lambda: A2 @ B1, lambda: want_of(lambda x, y: x @ y, a2, b1)),
+            ("einsum", lambda: np.einsum("...ij,...j->...i", A2, B1), lambda: want_of(lambda x, y: x @ y, a2, b1)),
+            ("einsum22", lambda: np.einsum("...ij,...jk->...ik", A2, B2), lambda: want_of(lambda x, y: x @ y, a2, b2)),
+            ("add", lambda: A2 + B2, lambda: want_of(np.add, a2, b2)),
+            ("mul0", lambda: A0 * B2, lambda: want_of(lambda x, y: x * y, a0, b2)),
+            ("div0", lambda: A2 / B0, lambda: want_of(lambda x, y: x / y, a2, b0)),
+            ("ddot", lambda: A2.ddot(B2), lambda: want_of(lambda x, y: np.sum(x * y), a2, b2)),
+            ("dot", lambda: A2.dot(B1), lambda: want_of(lambda x, y: x @ y, a2, b1)),
+            ("where", lambda: np.where(np.asarray(A2) > 0, A2, B2), lambda: want_of(lambda x, y: np.where(x > 0, x, y), a2, b2)),
+            # the result used once more, as a coefficient of a full field
+            ("chain", lambda: B0 * (A2 @ B2), lambda: want_of(lambda s_, x, y: s_ * (x @ y), b0, a2, b2)),
+        ]
+        for name, f, w in ops:
+            key = f"C12/extents/{name}/{ka}*{kb}/{cls}"
+            ok, got = attempt(ctx, key, f)
+            if ok:
+                want = w()
+                g = np.asarray(got)
+                if g.shape != want.shape and g.ndim == want.ndim:
+                    try:
+                        g = np.broadcast_to(g, np.broadcast_shapes(g.shape, want.shape))
+                        want = np.broadcast_to(want, g.shape)
+                    except ValueError:
+                        pass
+                ctx.check("values", relerr(g, want, scale=np.abs(want).max()) if g.shape == want.shape else np.inf, 1e-11, key + "/values",
+                          got_shape=list(np.shape(got)), want_shape=list(want.shape))
+                ctx.require("type-rule", isinstance(got, FeArray), key + "/type", got_type=type(got).__name__)
+                n += 1
+    # keyword forms and in-place operators between two fields of the same shape
+    for rank in (0, 1, 2):
+        X, x = mk("full", rank)
+        Y, y = mk("full", rank)
+        key = f"C12/ufunc-out/field-field/r{rank}/{cls}"
+        out = FeArray.asfearray(np.full(x.shape, 7.0))
+        ok, got = attempt(ctx, key, lambda: np.multiply(X, Y, out=out))
+        if ok:
+            judge(ctx, key, got, x * y, True)
+            ctx.check("values", relerr(np.asarray(out), x * y), 1e-14, key + "/out-filled")
+            ctx.require("type-rule", got is out, key + "/out-identity")
+        key = f"C12/ufunc-where/field-field/r{rank}/{cls}"
+        den = y.copy()
+        den[np.abs(den) < 0.6] = 0.0
+        D = FeArray.asfearray(den.copy())
+        ok, got = attempt(ctx, key, lambda: np.divide(X, D, out=FeArray.asfearray(np.zeros(x.shape)), where=D != 0))
+        if ok:
+            with np.errstate(all="ignore"):
+                want = np.where(den != 0, x / np.where(den != 0, den, 1.0), 0.0)
+            judge(ctx, key, got, want, True)
+        key = f"C12/inplace/field-field/r{rank}/{cls}"
+        acc = FeArray.asfearray(x.copy())
+        alias = acc
+
+        def inplace():
+            nonlocal acc
+            acc += Y
+            acc *= Y
+            acc -= X
+            return acc
+
+        ok, got = attempt(ctx, key, inplace)
+        if ok:
+            want = (x + y) * y - x
+            judge(ctx, key, got, want, True)
+            ctx.check("values", relerr(np.asarray(alias), want), 1e-14, key + "/alias-sees-update")
+        key = f"C12/ufunc-dtype/field-field/r{rank}/{cls}"
+        ok, got = attempt(ctx, key, lambda: np.add(X, Y, dtype=np.float32))
+        if ok:
+            ctx.check("values", relerr(np.asarray(got, float), (x + y), scale=float((np.abs(x) + np.abs(y)).max())), 1e-6, key + "/values")
+            ctx.require("type-rule", np.asarray(got).dtype == np.float32 and isinstance(got, FeArray), key + "/type", dtype=str(np.asarray(got).dtype))
+        n += 4
+    ctx.describe(f"extents/{case['shape']}", True, shape=SHAPES[case["shape"]], ops=n)
 
 
 # ------------------------------------------------------------------------------------------
